@@ -160,10 +160,30 @@ def bound_members(F, ctor, pi, depth=0):
     return out
 
 
+def guard_call_sites(F, E, fn):
+    """[(call expr, callee Fn)] for calls in fn that go to R_::cancelledBy*Guards, directly or through a member pointer"""
+    out = []
+    for e, g in E.call_sites(fn):
+        if g is not None and g.m in ('cancelledByGuards', 'cancelledByEntryGuards'):
+            out.append((e, g))
+        elif g is None and e.get('pm'):
+            for r in E.resolve_pm_all(fn, e):
+                g2 = F.fn(r['fn']) if r.get('fn') is not None else None
+                if g2 is not None and g2.m in ('cancelledByGuards', 'cancelledByEntryGuards'):
+                    out.append((e, g2))
+    return out
+
+
 def check_roles(run, F, E):
-    for loop_fn_name, guard_fn_name in (('processTransitions', 'cancelledByGuards'), ('initialEnter', 'cancelledByEntryGuards')):
-        for fn in F.find('R_', loop_fn_name):
-            # roles by data flow inside the loop function
+    loop_fns = []
+    for root_name in ('processRequest', 'initialEnter'):
+        for root in F.find('R_', root_name):
+            for g, st in anchors.substitution_loops(F, E, root):
+                if g.id not in [x.id for x in loop_fns]:
+                    loop_fns.append(g)
+    run.require(loop_fns, 'no substitution loop found')
+    for fn in loop_fns:
+            # roles by data flow inside the function that owns the loop
             pending = current = None
             for e, g in E.call_sites(fn):
                 if e['k'] == 'call' and (e.get('op') == '=' or e.get('m') == 'operator=') and ir.is_expr(e.get('obj')):
@@ -177,19 +197,19 @@ def check_roles(run, F, E):
                     rhs = E.lv(e['args'][0], fn) if e.get('args') else set()
                     if pending is not None and rhs == {pending} and len(lhs) == 1:
                         current = next(iter(lhs))
-            run.ob('C06.c', 'R_::%s has a pending object (copy of the request) and a current object (copy of an accepted pending) [%s]' % (loop_fn_name, F.cfg or 'none'),
-                   pending is not None and current is not None and pending != current, where=fn.pat,
-                   key='R_::%s: pending/current roles not found' % loop_fn_name)
-            if pending is None or current is None:
-                continue
-            guards = [(e, g) for e, g in E.call_sites(fn) if e.get('m') == guard_fn_name and g is not None]
-            run.require(guards, 'R_::%s does not call %s' % (loop_fn_name, guard_fn_name))
+            if pending is None or current is None or pending == current:
+                raise AnalysisBroken('%s: pending/current transition objects not recognised' % fn.short)
+            run.ob('C06.c', '%s has a pending object (copy of the request) and a current object (copy of an accepted pending) [%s]' % (fn.short, F.cfg or 'none'),
+                   True, where=fn.pat)
+            guards = guard_call_sites(F, E, fn)
+            run.require(guards, '%s does not consult guards' % fn.short)
             for e, g in guards:
+                guard_fn_name = g.m
                 roles = [E.lv(a, fn) for a in e.get('args', [])]
                 ok = len(roles) == 2 and roles[0] == {current} and roles[1] == {pending}
-                run.ob('C06.c', 'R_::%s passes (current, pending) to %s in that order [%s]' % (loop_fn_name, guard_fn_name, F.cfg or 'none'), ok,
+                run.ob('C06.c', '%s passes (current, pending) to %s in that order [%s]' % (fn.short, guard_fn_name, F.cfg or 'none'), ok,
                        where=e.get('l'), detail=None if ok else [sorted(r) for r in roles],
-                       key='R_::%s swaps current and pending when consulting guards' % loop_fn_name)
+                       key='%s swaps current and pending when consulting guards' % fn.short)
                 # inside the guard function: GuardControl{_core, p0, p1}
                 ctors = [x for x in ir.all_exprs(g) if x['k'] == 'ctor' and (x.get('cls') or '').startswith('ffsm2::detail::GuardControlT<')]
                 okc = len(ctors) == 1
@@ -215,23 +235,8 @@ def check_roles(run, F, E):
                 run.ob('C06.c', 'R_::%s builds a fresh GuardControl for each round [%s]' % (guard_fn_name, F.cfg or 'none'),
                        len(ctors) == 1 and not any(cg.in_loop(n) for n in cg.events(('ctor',))), where=g.pat,
                        key='R_::%s reuses a guard control' % guard_fn_name)
-        # the PlanControl used for enter/exit sees the current transition
-    for name in ('processTransitions', 'initialEnter'):
-        for fn in F.find('R_', name):
-            ctors = [x for x in ir.all_exprs(fn) if x['k'] == 'ctor' and (x.get('cls') or '').startswith('ffsm2::detail::PlanControlT<')]
-            ok = len(ctors) == 1
-            if ok:
-                a = E.lv(ctors[0]['args'][1], fn)
-                # the object handed to the plan control is the current-role object
-                cur = None
-                for e, g in E.call_sites(fn):
-                    if e['k'] == 'call' and (e.get('op') == '=' or e.get('m') == 'operator=') and ir.is_expr(e.get('obj')):
-                        rhs = E.lv(e['args'][0], fn)
-                        if rhs and next(iter(rhs))[0].startswith('local:pending'):
-                            cur = E.lv(e['obj'], fn)
-                ok = cur is not None and a == cur
-            run.ob('C06.c', 'R_::%s enters/exits with a PlanControl that shows the accepted (current) transition [%s]' % (name, F.cfg or 'none'), ok,
-                   where=fn.pat, key='R_::%s hands the wrong transition to enter/exit' % name)
+        # the PlanControl used for enter/exit sees the current transition: decided on the interpreted program (flow rule C02.d checks
+        # that enter()/reenter() run with a control whose current transition is the accepted one)
 
 
 # ------------------------------------------------------------------------------------------- C06.d
@@ -311,6 +316,15 @@ def check_request_origin(run, F, E):
                     p = amap.get('payload')
                     ok = ok and p is not None and p['k'] == 'var' and p.get('pi') == 1
                 det = {k: ir.pp(v) for k, v in amap.items()}
+            if ok:
+                # ... and it does so on every call (only the control lock may suppress it): otherwise the outstanding request keeps
+                # another requester's origin
+                c = cfgmod.cfg_of(fn)
+                asg = c.events(('call',), lambda n: (n.e.get('op') == '=' or n.e.get('m') == 'operator=') and ir.is_expr(n.e.get('obj')) and
+                               E.lv(n.e['obj'], fn) == {('core', 'request')})
+                ok = len(asg) == 1 and all('_locked' in ir.pp(ir.strip(b.e)) for b in c.control_deps_closure(asg[0]) if b.e is not None)
+                if not ok:
+                    det = {'request assignment is conditional on': [ir.pp(ir.strip(b.e))[:80] for b in c.control_deps_closure(asg[0])] if asg else 'no assignment'}
             run.ob('C06.e', '%s::%s records (_originId, requested id%s) in the request' % (tk, m, ', payload' if m == 'changeWith' else ''), ok,
                    where=fn.pat, detail=None if ok else det, key='%s::%s records the wrong origin/destination' % (tk, m))
 
